@@ -796,6 +796,10 @@ func TestRecord(t *testing.T) {
 		nn := 2 + rng.Intn(5)
 		names := []string{}
 		for i := 0; i < nn; i++ {
+			if h%4 >= 2 { // position names that are prefixes of one another (the keepers name positions by decimal id: 1, 12, 121)
+				names = append(names, []string{"p1", "p12", "p2", "p121", "p3", "p31"}[i])
+				continue
+			}
 			names = append(names, fmt.Sprintf("p%d", i+1))
 		}
 		r := &recorder{w: w, rng: rng, tw: tw, names: names, values: val, api: api, out: map[string][]*big.Int{}, counts: counts}
